@@ -538,7 +538,7 @@ def extend_case(ctx, case, i):
 
 
 def run(ctx):
-    for i in ctx.cases(5000, 400000):
+    for i in ctx.cases(5000, 200000):
         check_connection(ctx, make_case(ctx, i))
 
 
